@@ -17,8 +17,11 @@ class Prop(BaseProp):
     assumptions = [
         "configurations: HF_XET_TARGET_CHUNK_SIZE/MAX_XORB_BYTES/MAX_XORB_CHUNKS/NRANGES/INGESTION_BLOCK_SIZE scaled down through the code's own environment overrides (dev profile), one process per configuration",
         "the crate's debug-only shard self-check is switched off through the xet_verif hook (see DESIGN.md, observations)",
+        "C11_known_file_stores_nothing / C11_reupload_after_session: AllowAll (fragmentation prevention refuses no answer, e.g. MIN_N_CHUNKS_PER_RANGE = 0); "
+        "C11_refusal_stores_known_chunk_again shows the hypothesis is necessary (designed behaviour of DefragPrevention)",
+        "C11_session_shard_covers_its_files: StoreOk (no two xorbs with one hash, no zero xorb hash, distinct 8-byte chunk-hash prefixes, non-empty chunks) and op_ok as for C01; first session on an empty store",
     ]
-    rule = ("stream sess (as C01): every xorb stored by a session must be recorded in its shards; re-uploads in later sessions must not transfer chunk bytes beyond what fragmentation prevention withheld; non-trivial = at least one non-empty file cleaned and a session finalized; distinct by sha256 of the case text")
+    rule = ("stream sess (as C01): every xorb stored by a session must be recorded in its shards; re-uploads in later sessions must not transfer chunk bytes unless fragmentation prevention refused an answer; non-trivial = at least one non-empty file cleaned and a session finalized; distinct by sha256 of the case text")
     use_dd = False
 
     def streams(self, rng, tier):
